@@ -219,6 +219,13 @@ def run(ctx):
             r.ok("gate field %s written by %s" % (fld, ", ".join(sorted(set(m.short for m in pub)))))
         else:
             r.fail(gate_fn, gate_fn.node, "field " + fld, "the gate reads self.%s but no setter of Output writes it" % fld)
+
+    # ---------------------------------------------------------------- R5
+    from .c09 import io_setters_rule
+
+    r = ctx.rule("C10-R5", "SIBLING", "leaving quiet mode / raising the verbosity on an I/O reaches the standard AND the error output on every path "
+                 "(no early return on the state of one of them; same rule as C09-R6)", reference=2)
+    io_setters_rule(ctx, r, ("set_quiet", "set_verbosity"))
     return ctx.results
 
 
